@@ -2,15 +2,16 @@
 """Collect the confirmed seeded changes into /verif/seeded/<id>-<n>/ (patch.diff, demonstration, meta.json)."""
 import json, os, re, shutil, sys
 V = os.path.dirname(os.path.dirname(os.path.abspath(__file__)))
-def load_matrix(path):
+def load_matrix(*paths):
     m = {}
-    if os.path.exists(path):
+    for path in paths:
+      if os.path.exists(path):
         for l in open(path):
-            w = l.split()
-            if len(w) >= 3 and w[0].startswith('C'): m[(w[0], w[1])] = ' '.join(w[2:])
+            w = l.split('::')[0].split()
+            if len(w) >= 3 and w[0].startswith('C'): m[(w[0], w[1])] = ' '.join(w[2:]) + ((' -- first reports: ' + l.split('::', 1)[1].strip()[:300]) if '::' in l else '')
     return m
-for batch, root, mat in (('b1', '/tmp/mut/out', '/tmp/mut/matrix.log'), ('b2', '/tmp/mut2/out', '/tmp/mut2/matrix.log')):
-    matrix = load_matrix(mat)
+for batch, root, mat in (('b1', '/tmp/mut/out', ('/tmp/mut/matrix.log', '/tmp/mut/matrix_rerun.log')), ('b2', '/tmp/mut2/out', ('/tmp/mut2/matrix.log', '/tmp/mut2/matrix_rerun.log'))):
+    matrix = load_matrix(*mat)
     if not os.path.isdir(root): continue
     for pid in sorted(os.listdir(root)):
         for m in ('m1', 'm2'):
@@ -25,6 +26,10 @@ for batch, root, mat in (('b1', '/tmp/mut/out', '/tmp/mut/matrix.log'), ('b2', '
                 if f in ('verify.json', 'test.log') or f.endswith('.log'): continue
                 src = os.path.join(d, f)
                 if os.path.isfile(src) and os.path.getsize(src) < 200000: shutil.copy(src, out)
+            if os.path.exists(os.path.join(out, 'patch.rebased.diff')):
+                # the fix commits made since touched the same hunk: the change re-applied by hand to the current tree is the one kept and confirmed
+                os.replace(os.path.join(out, 'patch.diff'), os.path.join(out, 'patch.orig.diff'))
+                os.replace(os.path.join(out, 'patch.rebased.diff'), os.path.join(out, 'patch.diff'))
             readme = open(os.path.join(d, 'README.md'), errors='replace').read() if os.path.exists(os.path.join(d, 'README.md')) else ''
             needs = ''
             mm = re.search(r'(?is)(needs|trigger|manifest)[^\n]*\n(.{0,600})', readme)
@@ -32,7 +37,7 @@ for batch, root, mat in (('b1', '/tmp/mut/out', '/tmp/mut/matrix.log'), ('b2', '
             meta = dict(property=pid, batch=batch, breaks=readme[:600], needs_to_manifest=needs,
                         confirmed=dict(worktree='scratch git worktree of /repo outside /repo and /verif', patch_applies=True, builds=True,
                                        unit_suite_passes=True, demonstration_fails_with_change=True, demonstration_passes_without=True,
-                                       how='tools/verify_seeded.sh %s %s (git apply; cmake --build; ninja_test; demo.sh; revert; rebuild; demo.sh)' % (pid, m)),
+                                       how='tools/verify_seeded.sh <scratch base> %s %s (git apply; cmake --build; ninja_test from an empty directory; demo.sh; revert; rebuild; demo.sh)' % (pid, m), tree=v.get('head', 'earlier HEAD')),
                         detected=matrix.get((pid, m), 'not run'),
                         check_cmd='VERIF_REPO=<tree with the patch> tools/check %s --tier quick' % pid)
             json.dump(meta, open(os.path.join(out, 'meta.json'), 'w'), indent=1)
